@@ -12,6 +12,7 @@ import (
 	"github.com/cosmos/cosmos-sdk/types/query"
 
 	nfttypes "mods.irisnet.org/modules/nft/types"
+	"mods.irisnet.org/simapp"
 
 	"verif/sim/engine"
 )
@@ -35,6 +36,15 @@ type Config struct {
 	PFresh    float64    `json:"p_fresh_recipient"`
 	PUnknown  float64    `json:"p_unknown_object"`
 	Weights   []int      `json:"weights"` // mint, edit, transfer, burn, handover, re-issue
+	// Bulk: the chain starts with one class in which one party already holds about a hundred
+	// tokens (a long history behind the chain): counts beyond what one page of a listing holds
+	Bulk *BulkCfg `json:"bulk,omitempty"`
+}
+
+type BulkCfg struct {
+	Class  ClassCfg `json:"class"`
+	Holder int      `json:"holder"`
+	N      int      `json:"n"`
 }
 
 type ClassCfg struct {
@@ -118,7 +128,50 @@ func (m *Module) Configure(w *engine.World, r *engine.Rand) any {
 	if r.Bool(0.7) && c.Weights[4] == 0 {
 		c.Weights[4] = 1
 	}
+	if w.Focus == Prop {
+		// (a stream of its own: a seed's run is otherwise what it was before this arm existed)
+		br := engine.NewRand(engine.Mix(w.Sched.Seed, "nft-bulk", 0))
+		if br.Bool(0.12) {
+			c.Bulk = &BulkCfg{Class: ClassCfg{ID: "bulk", MintR: br.Bool(0.5), UpdR: br.Bool(0.5), Issuer: br.Intn(nAct)},
+				Holder: br.Intn(nAct), N: 97 + br.Intn(8)}
+		}
+	}
 	return c
+}
+
+func bulkTokenID(i int) string { return fmt.Sprintf("g%03d", i) }
+
+// Genesis puts the bulk class into the chain's genesis and into the model.
+func (m *Module) Genesis(w *engine.World, n *engine.Node, gs simapp.GenesisState) {
+	b := m.cfg.Bulk
+	if b == nil {
+		return
+	}
+	cdc := n.App.AppCodec()
+	var g nfttypes.GenesisState
+	cdc.MustUnmarshalJSON(gs[nfttypes.ModuleName], &g)
+	creator, holder := w.A(b.Class.Issuer).Addr.String(), w.A(b.Holder).Addr.String()
+	col := nfttypes.Collection{Denom: nfttypes.Denom{Id: b.Class.ID, Name: "bulk", Schema: "", Creator: creator, Symbol: "bulk",
+		MintRestricted: b.Class.MintR, UpdateRestricted: b.Class.UpdR}}
+	first := m.classes[b.Class.ID] == nil
+	var c *class
+	if first {
+		c = &class{ID: b.Class.ID, Creator: creator, MintR: b.Class.MintR, UpdR: b.Class.UpdR, Tokens: map[string]*token{}, Burned: map[string]bool{}}
+		m.classes[b.Class.ID] = c
+	}
+	for i := 0; i < b.N; i++ {
+		mt := meta{Name: names[i%len(names)], URI: uris[i%len(uris)], Hash: hashs[i%len(hashs)], Data: datas[i%len(datas)]}
+		col.NFTs = append(col.NFTs, nfttypes.BaseNFT{Id: bulkTokenID(i), Name: mt.Name, URI: mt.URI, UriHash: mt.Hash, Data: mt.Data, Owner: holder})
+		if first {
+			c.Tokens[bulkTokenID(i)] = &token{Owner: holder, M: mt}
+		}
+	}
+	g.Collections = append(g.Collections, col)
+	if err := nfttypes.ValidateGenesis(g); err != nil {
+		engine.Fatal("nft: generated invalid genesis: %v", err)
+	}
+	gs[nfttypes.ModuleName] = cdc.MustMarshalJSON(&g)
+	w.Hit("nft.genesis_bulk_class")
 }
 
 func (m *Module) LoadConfig(w *engine.World, raw json.RawMessage) {
@@ -701,8 +754,8 @@ func (m *Module) apply(w *engine.World, op *engine.Op, sender, why string) {
 // ---- oracle: queries vs model ----------------------------------------------------------
 
 func (m *Module) OnCommit(w *engine.World) {
-	if len(m.classes) == 0 {
-		return
+	if len(m.classes) == 0 || len(m.holders) == 0 {
+		return // nothing issued yet, or the genesis block itself (the parties are set up after it)
 	}
 	ctx := w.Node.Ctx()
 	k := w.Node.K.NFT
